@@ -3,8 +3,8 @@ From Coq Require Import String NArith List Bool.
 From GF Require Import Base.Res Base.Bytes Base.Layout Base.Gen Model.Msg Model.NF Model.Packet Model.ProdNF
      Model.Pipe Spec.GenPipe.
 Import ListNotations.
-Open Scope N_scope.
 Local Open Scope string_scope.
+Open Scope N_scope.
 
 Definition hist_toks (h : list (exporter * N * bytes)) : list tok :=
   flat_map (fun x => let '(e, tr, d) := x in [TB (eAddr e); TN (ePort e); TN tr; TB d]) h.
@@ -21,6 +21,8 @@ Definition c06_gen (stream seed i : N) : list tok * list tok :=
 
 Definition c06_run (inp : list tok) : list tok :=
   match inp with
-  | TS _ :: TS _ :: TS _ :: r => nf_run empty_prodcfg init_pstate (toks_hist r)
+  | TS _ :: TS k :: TS _ :: r =>
+      pipe_run (if String.eqb k "sflow" then PKSFlow else if String.eqb k "flow" then PKFlow else PKNetFlow)
+               empty_prodcfg init_pstate (toks_hist r)
   | _ => [TS "badinput"]
   end.
